@@ -30,6 +30,9 @@ PROFILES = [
     {'PERSONALITY': 1, 'MULTIPART_PARSER': 1, 'EXTRACT_FILES': 8, 'URLENC_PARSER': 1},
     {'PERSONALITY': 2, 'TX_CFG': 1, 'URLENC_PARSER': 1, 'AUTO_DESTROY': 1},
     {'PERSONALITY': 9, 'TX_CFG': 1, 'MULTIPART_PARSER': 1, 'REQ_DECOMP': 1},
+    # every transaction gets a private htp_config_copy() of the shared configuration, made while the other connections parse
+    {'PERSONALITY': 2, 'TX_CFG': 2, 'URLENC_PARSER': 1, 'SECOND_CB': 1},
+    {'PERSONALITY': 5, 'TX_CFG': 2, 'MULTIPART_PARSER': 1, 'AUTO_DESTROY': 1, 'TX_HOOKS': 1},
 ]
 
 OKREQ = b'GET /c HTTP/1.1\r\nHost: h\r\n\r\n'
